@@ -232,6 +232,13 @@ c_p2h = contract(MA + "pressure2height", prop=P, setup=_setup_p2h, pure=False,
 
 def _p2h_sampler(rng):
     n = rng.randint(2, 6)
+    r = rng.random()
+    if r < 0.35:
+        # pressures stored as whole Pascals (integer dtype), coarse and fine (layers thinner than a metre) grids
+        step = rng.choice([5, 40, 2500, 15000])
+        p = (101325 - step * _np.arange(n)).astype(rng.choice(["int64", "int32"]))
+        T = _np.array([rng.uniform(200, 300) for _ in range(n)]) if rng.random() < 0.5 else _np.array([rng.randint(200, 300) for _ in range(n)])
+        return dict(p=p, T=T)
     return dict(p=_np.sort(_np.array([rng.uniform(100, 1000e2) for _ in range(n)]))[::-1].copy(),
                 T=_np.array([rng.uniform(200, 300) for _ in range(n)]))
 
